@@ -1,7 +1,27 @@
 import GoawkModel.Basic
-/-! Line-protocol handler for property C03: one request line (already split into words, without the leading `c03`) → one answer line. -/
+import GoawkModel.C03
+/-! Line-protocol handler for property C03.
+`lex <bits> <src>` → `ok (<line>:<col>:<tok>:<off>:<val>)*` — `bits` is a string of 0/1 (`-` = none): the decision, per DIV/DIV_ASSIGN
+token, whether the client calls ScanRegex next.  `pos <src> <off>` → `<line>:<col>` (trueLineCol). -/
 namespace GoawkModel.Drv.C03
+open GoawkModel GoawkModel.C03
 
-def handle (_args : List String) : String := "unimplemented"
+def renderTok (t : Token) : String :=
+  s!"{t.pos.line}:{t.pos.col}:{t.tok}:{t.off}:{toHex t.val}"
+
+def parseBits (s : String) : List Bool :=
+  if s == "-" then [] else s.toList.map (· == '1')
+
+def handle (args : List String) : String :=
+  match args with
+  | ["lex", bits, src] =>
+    match fromHex src with
+    | some src => String.intercalate " " ("ok" :: (lex src (parseBits bits)).map renderTok)
+    | none => "bad-hex"
+  | ["pos", src, off] =>
+    match fromHex src, off.toNat? with
+    | some src, some off => let p := trueLineCol src off; s!"{p.line}:{p.col}"
+    | _, _ => "bad-request"
+  | _ => "bad-request"
 
 end GoawkModel.Drv.C03
